@@ -62,6 +62,7 @@ def decl_specs(tier):
     for c in ('i1', 'i3', 'dn', 'm0', 'b35', 'sn', 'su', 'sr', 'o1', 'r1', 'rs', 'sdn'):
         specs.append({'names': [c], 'wrapper': 'd'})
     specs.extend(alphabet.boundary_specs())
+    specs.extend(alphabet.structure_specs())
     return specs
 
 
